@@ -29,8 +29,12 @@ ICONTRACT = None     # module or None
 
 
 def _quiet_print(*args, **kwargs):
+    """counts what the library prints and behaves like print() to a terminal that only takes ASCII (PYTHONIOENCODING=ascii, the
+    C locale, a redirected Windows console): a message that cannot be encoded raises there, at the print statement"""
     key = (str(args[0]) if args else "")[:48].strip()
     PRINTS[key] = PRINTS.get(key, 0) + 1
+    if kwargs.get("file") is None:
+        kwargs.get("sep", " ").join(str(a) for a in args).encode("ascii")
 
 
 def ensure_deps():
